@@ -452,6 +452,29 @@ def rule_R24_prime(ctx, rep, config="c-lib", tag=""):
             if cc.block.name in inner["body"] and cc.block.name != inner["header"]:
                 continue
             got.append(norm(cc, pol))
+    # the same through a truth value (a helper `return 0' at a divisor / `return 1' when the loop ran out, inlined): the return is controlled by `flag != 0'
+    # and the flag is non-zero exactly on the ways in that come from the exit of the loop
+    from .r4 import _edge_conditions
+    for r in rets:
+        for (cc, pol) in _controlling_conditions(f, r.block.name):
+            if cc.d["pred"] not in ("eq", "ne") or const_int(cc.ops[1]) != 0:
+                continue
+            ph = f.inst(strip_int_casts(f, cc.ops[0]))
+            if ph is None or ph.op != "phi":
+                continue
+            want_nonzero = (cc.d["pred"] == "ne") == pol
+            okp = True
+            for (v, pb) in ph.d["incoming"]:
+                k = const_int(v)
+                if k is None:
+                    okp = False
+                    break
+                passes = (k != 0) == want_nonzero
+                from_exit = out_c in [norm(c_, p_) for (c_, p_) in _edge_conditions(f, pb, ph.block.name) if c_.block.name == inner["header"]]
+                if passes != from_exit:
+                    okp = False
+            if okp:
+                got.append(out_c)
     key = tag + "higher_prime_number/returned-when-loop-ran-out"
     if out_c in got:
         rep.ok("R24-prime", key, sample={"loop": c1.where(), "loop_condition": " ".join(loop_c), "returned_under": " ".join(out_c)})
